@@ -100,6 +100,14 @@ impl Part {
 
 /// Run the other variant binaries with `--part` and collect their parts.
 pub fn run_variant_part(var: &str, id: &str, tier: Tier) -> Result<Part, String> {
+    if std::env::var("VCHECK_MISSING").map(|m| m.split_whitespace().any(|x| x == var)).unwrap_or(false) {
+        // this feature build of the repository does not compile: nothing to run; say so in the evidence
+        let mut p = Part::new();
+        p.variant = var.to_string();
+        p.notes.push(format!("the {} build of /repo does not compile at the moment: variant skipped (see .target/build-{}.log)", var, var));
+        println!("NOTE property={} variant {} skipped: it does not build", id, var);
+        return Ok(p);
+    }
     let envname = format!("VCHECK_BIN_{}", var.to_uppercase());
     let bin = std::env::var(&envname).map_err(|_| format!("{} not set (run through ./vc)", envname))?;
     let out = std::process::Command::new(&bin)
